@@ -1,7 +1,1327 @@
-//! C11 — not implemented yet (stub).
-use crate::engine::Args;
+//! C11 — command channels deliver every message once, intact, within memory bounds
+//! (in-process stateful check; DESIGN §4 C11).
+//!
+//! A `Channel<WorkerRequest, WorkerResponse>` sits on one end of a unix socket pair, the harness
+//! owns the other end as a raw socket and moves bytes in arbitrary pieces. Wire format (read from
+//! command/src/channel.rs): `[u64 little-endian = total frame length, prefix included][prost payload]`.
+//! The peer's frames and the expected frames of the channel's writes are built by the hand-written
+//! protobuf encoder of this file, never by the channel.
+//!
+//! Model = two FIFO byte streams with known frame boundaries. Observables: results of
+//! `read_message`/`write_message`, `front_buf`/`back_buf` (public: `data()`, `available_data()`,
+//! `capacity()`), `interest`/`readiness`, and the kernel's count of unread bytes (FIONREAD) on both
+//! sockets, which gives the exact number of bytes the channel pulled from / pushed to the socket.
 
-pub fn run(_args: &Args) -> i32 {
-    println!("INCONCLUSIVE: C11 has no check yet");
-    2
+use std::{
+    io::{Read, Write},
+    os::unix::{
+        io::{AsRawFd, RawFd},
+        net::UnixStream as StdUnixStream,
+    },
+    time::Duration,
+};
+
+use mio::net::UnixStream as MioUnixStream;
+use proptest::prelude::*;
+use prost::Message as _;
+use serde::{Deserialize, Serialize};
+use sozu_command_lib::{
+    channel::{Channel, ChannelError},
+    proto::command::{Request, Status, WorkerRequest, WorkerResponse, request::RequestType},
+    ready::Ready,
+};
+
+use crate::engine::{self, Args, CaseReport, CheckResult, Evidence, Failure};
+
+const PREFIX: usize = 8;
+const SIG_WEDGE: &str = "C11/undecodable-frame-wedges-channel";
+const SIG_NOT_COMPACTED: &str = "C11/full-front-buffer-never-compacted";
+const SIG_INTEREST_LOST: &str = "C11/read-interest-lost-after-error";
+
+// ---------------------------------------------------------------------------
+// case
+
+#[derive(Clone, Debug, Serialize, Deserialize)]
+pub enum FrameSpec {
+    /// a well-formed frame whose payload is `payload` bytes long (0 = empty payload, 1..=5 -> 6;
+    /// clipped so that the frame fits `max_buffer_size`)
+    Valid { payload: u32, id_hint: u8, status: u8, seed: u8 },
+    /// a well-formed frame of total length `max_buffer_size - below`
+    NearMax { below: u8, id_hint: u8, seed: u8 },
+    /// 8 bytes declaring a total length below the prefix size
+    ShortPrefix { declared: u8 },
+    /// 8 bytes declaring a total length above `max_buffer_size` (kind selects the excess)
+    OverMax { kind: u8 },
+    /// a frame with a correct prefix whose `payload` bytes are not a WorkerResponse
+    Undecodable { payload: u16, flavor: u8 },
+}
+
+#[derive(Clone, Debug, Serialize, Deserialize)]
+pub enum Op {
+    /// the peer writes the next (up to) k bytes of its stream
+    PeerWrite(u32),
+    /// `handle_events(READABLE); readable()`
+    ChanReadable,
+    /// `read_message()`
+    ChanReadMessage,
+    /// `write_message()` of a WorkerRequest whose frame is about `size` bytes
+    /// (`near_max`: the frame is `max_buffer_size + size - 3` bytes instead, size in 0..=6)
+    ChanWriteMessage { size: u32, near_max: bool, save_state: bool, seed: u8 },
+    /// `handle_events(WRITABLE); writable()`
+    ChanWritable,
+    /// the peer reads up to k bytes
+    PeerRead(u32),
+    /// the main process' loop: `sozu::command::sessions::extract_messages`
+    ExtractMessages,
+    /// the worker's loop (lib/src/server.rs read_channel_messages_and_notify), mirrored
+    ServerLoop,
+}
+
+#[derive(Clone, Debug, Serialize, Deserialize)]
+pub struct Case {
+    pub buffer_size: u32,
+    pub max_buffer_size: u32,
+    /// SO_SNDBUF requested on both sockets (0 = kernel default)
+    pub sndbuf: u32,
+    pub blocking: bool,
+    /// who drives the read side: 0 = arbitrary caller (primitive ops as generated, drain = worker loop
+    /// then extract_messages loop), 1 = worker (every read op is the worker's read loop, drain = that
+    /// loop only), 2 = main process (every read op is `writable(); extract_messages()`, drain = same)
+    #[serde(default)]
+    pub owner: u8,
+    /// when true the undecodable-payload frames of `frames` are left out of the stream
+    /// (known finding C11/undecodable-frame-wedges-channel; keeps the rest of the space explored)
+    #[serde(default)]
+    pub no_undecodable: bool,
+    pub frames: Vec<FrameSpec>,
+    pub ops: Vec<Op>,
+    /// in the drain phase the peer writes at most max(drain_chunk, 1/32 of what is left) bytes per
+    /// round (0 = everything at once)
+    #[serde(default)]
+    pub drain_chunk: u32,
+}
+
+// ---------------------------------------------------------------------------
+// generators
+
+fn frame_spec() -> impl Strategy<Value = FrameSpec> {
+    prop_oneof![
+        10 => (0u32..=40, any::<u8>(), 0u8..3, any::<u8>())
+            .prop_map(|(payload, id_hint, status, seed)| FrameSpec::Valid { payload, id_hint, status, seed }),
+        3 => (40u32..=2000, any::<u8>(), 0u8..3, any::<u8>())
+            .prop_map(|(payload, id_hint, status, seed)| FrameSpec::Valid { payload, id_hint, status, seed }),
+        1 => (2000u32..=65536, any::<u8>(), 0u8..3, any::<u8>())
+            .prop_map(|(payload, id_hint, status, seed)| FrameSpec::Valid { payload, id_hint, status, seed }),
+        2 => (0u8..=16, any::<u8>(), any::<u8>()).prop_map(|(below, id_hint, seed)| FrameSpec::NearMax { below, id_hint, seed }),
+        2 => (0u8..8).prop_map(|declared| FrameSpec::ShortPrefix { declared }),
+        1 => (0u8..8).prop_map(|kind| FrameSpec::OverMax { kind }),
+        2 => (prop_oneof![3 => 1u16..=64, 1 => 64u16..=600], 0u8..6).prop_map(|(payload, flavor)| FrameSpec::Undecodable { payload, flavor }),
+    ]
+}
+
+fn chunk() -> impl Strategy<Value = u32> {
+    prop_oneof![3 => 1u32..=16, 3 => 16u32..=512, 2 => 512u32..=70_000]
+}
+
+fn write_op() -> impl Strategy<Value = Op> {
+    (
+        prop_oneof![4 => 0u32..=64, 2 => 64u32..=2000, 1 => 2000u32..=66_000],
+        prop::bool::weighted(0.15),
+        any::<bool>(),
+        any::<u8>(),
+    )
+        .prop_map(|(size, near_max, save_state, seed)| Op::ChanWriteMessage {
+            size: if near_max { size % 7 } else { size },
+            near_max,
+            save_state,
+            seed,
+        })
+}
+
+fn op() -> impl Strategy<Value = Op> {
+    prop_oneof![
+        8 => chunk().prop_map(Op::PeerWrite),
+        4 => Just(Op::ChanReadable),
+        6 => Just(Op::ChanReadMessage),
+        3 => write_op(),
+        3 => Just(Op::ChanWritable),
+        3 => chunk().prop_map(Op::PeerRead),
+        1 => Just(Op::ExtractMessages),
+        1 => Just(Op::ServerLoop),
+    ]
+}
+
+fn sizes() -> impl Strategy<Value = (u32, u32)> {
+    (
+        prop_oneof![3 => 16u32..=128, 3 => 128u32..=1024, 1 => 1024u32..=8192],
+        prop_oneof![1 => Just(1u32), 4 => 2u32..=8, 2 => 8u32..=512],
+        0u32..=17,
+    )
+        .prop_map(|(b, mult, jitter)| {
+            let max = (b.saturating_mul(mult) + jitter).clamp(32, 65_536).max(b);
+            (b, max)
+        })
+}
+
+/// 70% of the cases leave undecodable frames out (see `Case::no_undecodable`)
+const NO_UNDECODABLE_SHARE: f64 = 0.7;
+
+pub fn strategy() -> impl Strategy<Value = Case> {
+    (
+        sizes(),
+        prop_oneof![1 => Just(0u32), 2 => 1u32..=8192, 1 => 8192u32..=65_536],
+        prop::bool::weighted(NO_UNDECODABLE_SHARE),
+        prop_oneof![2 => Just(0u8), 1 => Just(1u8), 1 => Just(2u8)],
+        prop::collection::vec(frame_spec(), 0..=10),
+        prop::collection::vec(op(), 0..=80),
+        prop_oneof![2 => Just(0u32), 2 => 1u32..=16, 2 => 16u32..=512],
+    )
+        .prop_map(|((buffer_size, max_buffer_size), sndbuf, no_undecodable, owner, frames, ops, drain_chunk)| Case {
+            buffer_size,
+            max_buffer_size,
+            sndbuf,
+            blocking: false,
+            owner,
+            no_undecodable,
+            frames,
+            ops,
+            drain_chunk,
+        })
+}
+
+pub fn strategy_blocking() -> impl Strategy<Value = Case> {
+    let op = prop_oneof![
+        5 => chunk().prop_map(Op::PeerWrite),
+        5 => Just(Op::ChanReadMessage),
+        2 => write_op(),
+    ];
+    (
+        sizes(),
+        prop::bool::weighted(NO_UNDECODABLE_SHARE),
+        prop::collection::vec(frame_spec(), 0..=8),
+        prop::collection::vec(op, 0..=40),
+        prop_oneof![2 => Just(0u32), 2 => 1u32..=16, 2 => 16u32..=512],
+    )
+        .prop_map(|((buffer_size, max_buffer_size), no_undecodable, frames, ops, drain_chunk)| Case {
+            buffer_size,
+            max_buffer_size,
+            sndbuf: 0,
+            blocking: true,
+            owner: 0,
+            no_undecodable,
+            frames,
+            ops,
+            drain_chunk,
+        })
+}
+
+// ---------------------------------------------------------------------------
+// the independent encoder / decoder (protobuf wire format by hand)
+
+fn put_varint(out: &mut Vec<u8>, mut v: u64) {
+    loop {
+        let b = (v & 0x7f) as u8;
+        v >>= 7;
+        if v == 0 {
+            out.push(b);
+            return;
+        }
+        out.push(b | 0x80);
+    }
+}
+
+fn varint_len(mut v: u64) -> usize {
+    let mut n = 1;
+    while v >= 0x80 {
+        v >>= 7;
+        n += 1;
+    }
+    n
+}
+
+fn put_len_field(out: &mut Vec<u8>, field: u32, data: &[u8]) {
+    put_varint(out, ((field as u64) << 3) | 2);
+    put_varint(out, data.len() as u64);
+    out.extend_from_slice(data);
+}
+
+/// WorkerResponse { required string id = 1; required ResponseStatus status = 2; required string message = 3; }
+fn enc_response(id: &str, status: u8, message: &str) -> Vec<u8> {
+    let mut out = Vec::with_capacity(id.len() + message.len() + 12);
+    put_len_field(&mut out, 1, id.as_bytes());
+    put_varint(&mut out, 2 << 3);
+    put_varint(&mut out, status as u64);
+    put_len_field(&mut out, 3, message.as_bytes());
+    out
+}
+
+fn response_len(id_len: usize, msg_len: usize) -> usize {
+    1 + varint_len(id_len as u64) + id_len + 2 + 1 + varint_len(msg_len as u64) + msg_len
+}
+
+/// WorkerRequest { required string id = 1; required Request content = 2; }
+/// Request { oneof { string save_state = 1; Status status = 12; … } }
+fn enc_request(id: &str, save_state: Option<&str>) -> Vec<u8> {
+    let mut content = Vec::new();
+    match save_state {
+        Some(path) => put_len_field(&mut content, 1, path.as_bytes()),
+        None => put_len_field(&mut content, 12, &[]),
+    }
+    let mut out = Vec::new();
+    put_len_field(&mut out, 1, id.as_bytes());
+    put_len_field(&mut out, 2, &content);
+    out
+}
+
+fn request_len(id_len: usize, path_len: Option<usize>) -> usize {
+    let content = match path_len {
+        Some(p) => 1 + varint_len(p as u64) + p,
+        None => 2,
+    };
+    1 + varint_len(id_len as u64) + id_len + 1 + varint_len(content as u64) + content
+}
+
+fn framed(payload: &[u8]) -> Vec<u8> {
+    let mut out = Vec::with_capacity(payload.len() + PREFIX);
+    out.extend_from_slice(&((payload.len() + PREFIX) as u64).to_le_bytes());
+    out.extend_from_slice(payload);
+    out
+}
+
+fn get_varint(b: &[u8], p: &mut usize) -> Option<u64> {
+    let mut v = 0u64;
+    for shift in 0..10 {
+        let byte = *b.get(*p)?;
+        *p += 1;
+        v |= ((byte & 0x7f) as u64) << (7 * shift);
+        if byte & 0x80 == 0 {
+            return Some(v);
+        }
+    }
+    None
+}
+
+/// the length-delimited fields of a message, in wire order; None if anything else is in there
+fn len_fields(b: &[u8]) -> Option<Vec<(u64, &[u8])>> {
+    let mut p = 0;
+    let mut out = vec![];
+    while p < b.len() {
+        let key = get_varint(b, &mut p)?;
+        if key & 7 != 2 {
+            return None;
+        }
+        let len = get_varint(b, &mut p)? as usize;
+        let data = b.get(p..p.checked_add(len)?)?;
+        p += len;
+        out.push((key >> 3, data));
+    }
+    Some(out)
+}
+
+/// hand decoder of a WorkerRequest payload: (id, Some(path) for SaveState / None for Status)
+fn dec_request(b: &[u8]) -> Option<(String, Option<String>)> {
+    let f = len_fields(b)?;
+    if f.len() != 2 || f[0].0 != 1 || f[1].0 != 2 {
+        return None;
+    }
+    let id = String::from_utf8(f[0].1.to_vec()).ok()?;
+    let c = len_fields(f[1].1)?;
+    if c.len() != 1 {
+        return None;
+    }
+    match c[0] {
+        (1, path) => Some((id, Some(String::from_utf8(path.to_vec()).ok()?))),
+        (12, []) => Some((id, None)),
+        _ => None,
+    }
+}
+
+/// position-dependent printable ASCII
+fn text(seed: u8, salt: usize, n: usize) -> String {
+    (0..n).map(|i| (b'!' + ((seed as usize + salt + i * 7 + (i >> 6) * 13) % 90) as u8) as char).collect()
+}
+
+/// largest n in 0..=hi with f(n) <= target (f increasing); None if f(0) > target
+fn largest_fitting(target: usize, hi: usize, f: impl Fn(usize) -> usize) -> Option<usize> {
+    if f(0) > target {
+        return None;
+    }
+    let (mut lo, mut hi) = (0usize, hi);
+    while lo < hi {
+        let mid = (lo + hi + 1) / 2;
+        if f(mid) <= target {
+            lo = mid;
+        } else {
+            hi = mid - 1;
+        }
+    }
+    Some(lo)
+}
+
+/// (id_len, msg_len) of a canonical WorkerResponse payload of exactly `target` bytes (target >= 6)
+fn size_response(target: usize, id_hint: u8) -> (usize, usize) {
+    let id0 = (id_hint as usize % 24).min(target - 6);
+    let mut best = (0, 0);
+    for id_len in [id0, id0 + 1, id0.saturating_sub(1), id0 + 2] {
+        if let Some(m) = largest_fitting(target, target, |m| response_len(id_len, m)) {
+            if response_len(id_len, m) == target {
+                return (id_len, m);
+            }
+            if response_len(id_len, m) > response_len(best.0, best.1) || best == (0, 0) {
+                best = (id_len, m);
+            }
+        }
+    }
+    best
+}
+
+/// (id_len, path_len) of a WorkerRequest whose payload is `target` bytes, or the closest below
+/// (the smallest possible if target is too small)
+fn size_request(target: usize, save_state: bool, id_hint: u8) -> (usize, Option<usize>) {
+    if !save_state {
+        let n = largest_fitting(target, target, |n| request_len(n, None)).unwrap_or(0);
+        return (n, None);
+    }
+    let id0 = id_hint as usize % 24;
+    let mut best: Option<(usize, usize)> = None;
+    for id_len in [id0, id0 + 1, id0 + 2, id0 + 3] {
+        if let Some(p) = largest_fitting(target, target, |p| request_len(id_len, Some(p))) {
+            if request_len(id_len, Some(p)) == target {
+                return (id_len, Some(p));
+            }
+            if best.map(|(i, q)| request_len(id_len, Some(p)) > request_len(i, Some(q))).unwrap_or(true) {
+                best = Some((id_len, p));
+            }
+        }
+    }
+    match best {
+        Some((i, p)) => (i, Some(p)),
+        None => (0, Some(0)),
+    }
+}
+
+// ---------------------------------------------------------------------------
+// the peer's outgoing stream
+
+#[derive(Clone, Copy, Debug, PartialEq, Eq)]
+enum Kind {
+    Valid,
+    Short,
+    OverMax,
+    Undecodable,
+}
+
+struct Frame {
+    kind: Kind,
+    start: usize,
+    /// bytes this frame occupies in the stream (Short/OverMax: the 8 prefix bytes)
+    len: usize,
+    declared: u64,
+    /// the message the peer framed and its canonical encoding
+    expected: Option<(WorkerResponse, Vec<u8>)>,
+    /// number of peer writes that carried a part of this frame
+    writes: u32,
+    /// times `read_message` reported this (undecodable) frame without dropping it
+    refused: u32,
+}
+
+fn undecodable_payload(n: usize, flavor: u8) -> Vec<u8> {
+    let n = n.max(1);
+    let mut p: Vec<u8> = match flavor {
+        // field 1 (string) with wire type varint
+        1 => vec![0x08, 0x01],
+        // string longer than what is left
+        2 => {
+            let mut v = vec![0x0a];
+            put_varint(&mut v, n as u64 + 5);
+            v.resize(n.max(v.len()), b'a');
+            v
+        }
+        // id is not UTF-8
+        3 if (3..=129).contains(&n) => {
+            let mut v = vec![0x0a, (n - 2) as u8];
+            v.resize(n, 0xff);
+            v
+        }
+        // field number 0
+        4 => vec![0x02, 0x00],
+        // a canonical message followed by half a tag
+        5 if n >= 7 => {
+            let (i, m) = size_response(n - 1, 3);
+            let mut v = enc_response(&text(1, 0, i), 1, &text(2, 0, m));
+            v.push(0xff);
+            v
+        }
+        // an endless varint
+        _ => vec![0xff; n],
+    };
+    p.resize(n, 0x00);
+    p
+}
+
+struct Stream {
+    bytes: Vec<u8>,
+    frames: Vec<Frame>,
+    skipped_undecodable: u64,
+}
+
+fn build_stream(case: &Case) -> Stream {
+    let max = case.max_buffer_size as usize;
+    let mut s = Stream { bytes: vec![], frames: vec![], skipped_undecodable: 0 };
+    for spec in &case.frames {
+        let start = s.bytes.len();
+        let valid = |payload_target: usize, id_hint: u8, status: u8, seed: u8| -> (Vec<u8>, WorkerResponse, Vec<u8>) {
+            if payload_target == 0 {
+                // an empty payload decodes to the default message
+                let canon = enc_response("", 0, "");
+                return (framed(&[]), WorkerResponse { id: String::new(), status: 0, message: String::new(), content: None }, canon);
+            }
+            let (i, m) = size_response(payload_target.max(6), id_hint);
+            let (id, msg) = (text(seed, 0, i), text(seed, 1000, m));
+            let payload = enc_response(&id, status, &msg);
+            let expected = WorkerResponse { id, status: status as i32, message: msg, content: None };
+            (framed(&payload), expected, payload)
+        };
+        let (kind, bytes, declared, expected) = match *spec {
+            FrameSpec::Valid { payload, id_hint, status, seed } => {
+                let room = max.saturating_sub(PREFIX);
+                let target = (payload as usize).min(room);
+                let target = if (1..6).contains(&target) { if room >= 6 { 6 } else { 0 } } else { target };
+                let (b, e, c) = valid(target, id_hint, status % 3, seed);
+                (Kind::Valid, b, 0, Some((e, c)))
+            }
+            FrameSpec::NearMax { below, id_hint, seed } => {
+                let total = max.saturating_sub(below as usize).max(PREFIX + 6);
+                let (b, e, c) = valid(total - PREFIX, id_hint, seed % 3, seed);
+                (Kind::Valid, b, 0, Some((e, c)))
+            }
+            FrameSpec::ShortPrefix { declared } => {
+                let d = (declared % 8) as u64;
+                (Kind::Short, d.to_le_bytes().to_vec(), d, None)
+            }
+            FrameSpec::OverMax { kind } => {
+                let m = max as u64;
+                let d = match kind % 8 {
+                    0 => m + 1,
+                    1 => m + 2,
+                    2 => m * 2,
+                    3 => m + 0x100,
+                    4 => 1 << 31,
+                    5 => 1 << 32,
+                    6 => 1 << 63,
+                    _ => u64::MAX,
+                };
+                (Kind::OverMax, d.to_le_bytes().to_vec(), d, None)
+            }
+            FrameSpec::Undecodable { payload, flavor } => {
+                if case.no_undecodable {
+                    s.skipped_undecodable += 1;
+                    continue;
+                }
+                let n = (payload as usize).clamp(1, max.saturating_sub(PREFIX).max(1));
+                let p = undecodable_payload(n, flavor);
+                if WorkerResponse::decode(&p[..]).is_ok() {
+                    panic!("C11 harness bug: 'undecodable' payload decodes: {p:?}");
+                }
+                (Kind::Undecodable, framed(&p), 0, None)
+            }
+        };
+        let len = bytes.len();
+        let declared = if declared == 0 && kind != Kind::Short { len as u64 } else { declared };
+        s.bytes.extend_from_slice(&bytes);
+        s.frames.push(Frame { kind, start, len, declared, expected, writes: 0, refused: 0 });
+    }
+    s
+}
+
+// ---------------------------------------------------------------------------
+// the world
+
+fn inq(fd: RawFd) -> usize {
+    let mut n: libc::c_int = 0;
+    // SAFETY: FIONREAD writes one c_int through the pointer
+    let r = unsafe { libc::ioctl(fd, libc::FIONREAD, &mut n as *mut libc::c_int) };
+    if r != 0 {
+        panic!("C11 harness: ioctl(FIONREAD) failed: {}", std::io::Error::last_os_error());
+    }
+    n as usize
+}
+
+fn set_sndbuf(fd: RawFd, v: u32) {
+    let v = v as libc::c_int;
+    // SAFETY: plain setsockopt with a c_int value
+    unsafe {
+        libc::setsockopt(fd, libc::SOL_SOCKET, libc::SO_SNDBUF, &v as *const libc::c_int as *const libc::c_void, std::mem::size_of::<libc::c_int>() as libc::socklen_t);
+    }
+}
+
+fn err_name(e: &ChannelError) -> &'static str {
+    match e {
+        ChannelError::Read(_) => "Read",
+        ChannelError::NoByteWritten => "NoByteWritten",
+        ChannelError::NoByteToRead => "NoByteToRead",
+        ChannelError::MessageTooLarge { .. } => "MessageTooLarge",
+        ChannelError::MessageLengthUnderDelimiter { .. } => "MessageLengthUnderDelimiter",
+        ChannelError::Write(_) => "Write",
+        ChannelError::BufferFull { .. } => "BufferFull",
+        ChannelError::TimeoutReached(_) => "TimeoutReached",
+        ChannelError::NothingRead => "NothingRead",
+        ChannelError::InvalidCharSet(_) => "InvalidCharSet",
+        ChannelError::SetTimeout { .. } => "SetTimeout",
+        ChannelError::BlockingStatus { .. } => "BlockingStatus",
+        ChannelError::Connection(_) => "Connection",
+        ChannelError::InvalidProtobufMessage(_) => "InvalidProtobufMessage",
+        ChannelError::MismatchBufferSize => "MismatchBufferSize",
+    }
+}
+
+#[derive(Default)]
+struct Seen {
+    front_grew: bool,
+    front_shrank: bool,
+    back_grew: bool,
+    back_shrank: bool,
+    chan_write_wouldblock: bool,
+    peer_write_wouldblock: bool,
+    read_interest_dropped: bool,
+    buffer_full_error: bool,
+    write_refused: bool,
+    extract_used: bool,
+    server_loop_used: bool,
+    short_reported: u32,
+    overmax_reported: u32,
+    undecodable_reported: u32,
+    undecodable_skipped_by_channel: u32,
+    big_delivered: bool,
+    empty_delivered: bool,
+    blocking_peer_stuck: bool,
+    reads: u64,
+}
+
+struct World {
+    chan: Channel<WorkerRequest, WorkerResponse>,
+    peer: StdUnixStream,
+    blocking: bool,
+    owner: u8,
+    drain_chunk: usize,
+    initial: usize,
+    max: usize,
+    stream: Vec<u8>,
+    frames: Vec<Frame>,
+    /// bytes of `stream` the kernel accepted from the peer
+    sent: usize,
+    /// index of the frame at the channel's parse position
+    fi: usize,
+    delivered: u64,
+    last_read_err: &'static str,
+    /// what the peer must receive: frames of the accepted writes, concatenated
+    out_expected: Vec<u8>,
+    out_msgs: Vec<(String, Option<String>)>,
+    peer_in: Vec<u8>,
+    front_cap: usize,
+    back_cap: usize,
+    seen: Seen,
+}
+
+impl World {
+    fn new(case: &Case) -> World {
+        let (a, b) = StdUnixStream::pair().expect("socketpair");
+        a.set_nonblocking(true).expect("nonblocking");
+        b.set_nonblocking(true).expect("nonblocking");
+        if case.sndbuf > 0 {
+            set_sndbuf(a.as_raw_fd(), case.sndbuf);
+            set_sndbuf(b.as_raw_fd(), case.sndbuf);
+        }
+        let mut chan: Channel<WorkerRequest, WorkerResponse> =
+            Channel::new(MioUnixStream::from_std(a), case.buffer_size as u64, case.max_buffer_size as u64);
+        if case.blocking {
+            chan.blocking().expect("blocking()");
+        }
+        let st = build_stream(case);
+        World {
+            chan,
+            peer: b,
+            blocking: case.blocking,
+            owner: if case.blocking { 0 } else { case.owner.min(2) },
+            drain_chunk: case.drain_chunk as usize,
+            initial: case.buffer_size as usize,
+            max: case.max_buffer_size as usize,
+            stream: st.bytes,
+            frames: st.frames,
+            sent: 0,
+            fi: 0,
+            delivered: 0,
+            last_read_err: "-",
+            out_expected: vec![],
+            out_msgs: vec![],
+            peer_in: vec![],
+            front_cap: case.buffer_size as usize,
+            back_cap: case.buffer_size as usize,
+            seen: Seen::default(),
+        }
+    }
+
+    /// the front buffer is at its maximal capacity with no free tail, yet holds less than its capacity:
+    /// the consumed bytes at its head were not reclaimed
+    fn full_uncompacted(&self) -> bool {
+        let b = &self.chan.front_buf;
+        b.capacity() >= self.max && b.available_space() == 0 && b.available_data() < b.capacity()
+    }
+
+    fn ppos(&self) -> usize {
+        self.frames.get(self.fi).map(|f| f.start).unwrap_or(self.stream.len())
+    }
+
+    fn state(&self) -> String {
+        format!(
+            "[buffer_size {} max {} | front: cap {} data {} space {} | back: cap {} data {} | interest {:?} readiness {:?} | peer sent {}/{} bytes, unread in socket {} | frame #{}/{} at stream offset {} | last read error {}]",
+            self.initial,
+            self.max,
+            self.chan.front_buf.capacity(),
+            self.chan.front_buf.available_data(),
+            self.chan.front_buf.available_space(),
+            self.chan.back_buf.capacity(),
+            self.chan.back_buf.available_data(),
+            self.chan.interest,
+            self.chan.readiness,
+            self.sent,
+            self.stream.len(),
+            inq(self.chan.fd()),
+            self.fi,
+            self.frames.len(),
+            self.ppos(),
+            self.last_read_err,
+        )
+    }
+
+    fn describe(&self, i: usize) -> String {
+        match self.frames.get(i) {
+            None => "end of stream".into(),
+            Some(f) => format!("{:?} frame #{i} ({} bytes, declared length {})", f.kind, f.len, f.declared),
+        }
+    }
+
+    /// invariants that hold after every step
+    fn observe(&mut self) -> Result<(), Failure> {
+        let (fc, bc) = (self.chan.front_buf.capacity(), self.chan.back_buf.capacity());
+        if fc > self.max || bc > self.max {
+            fail!("C11/buffer-exceeds-max", "front_buf capacity {fc}, back_buf capacity {bc}, max_buffer_size {} {}", self.max, self.state());
+        }
+        self.seen.front_grew |= fc > self.front_cap;
+        self.seen.front_shrank |= fc < self.front_cap;
+        self.seen.back_grew |= bc > self.back_cap;
+        self.seen.back_shrank |= bc < self.back_cap;
+        self.front_cap = fc;
+        self.back_cap = bc;
+
+        // read side: what the channel pulled and has not consumed is exactly the stream from the parse position
+        let avail = self.chan.front_buf.available_data();
+        let pulled = self.sent as i64 - inq(self.chan.fd()) as i64;
+        let ppos = self.ppos() as i64;
+        if pulled - avail as i64 != ppos {
+            fail!(
+                "C11/byte-accounting",
+                "the channel pulled {pulled} bytes and holds {avail}, so it consumed {} bytes, but the frames handed out so far end at stream offset {ppos} {}",
+                pulled - avail as i64,
+                self.state()
+            );
+        }
+        let want = &self.stream[ppos as usize..ppos as usize + avail];
+        if self.chan.front_buf.data() != want {
+            let got = self.chan.front_buf.data();
+            let at = got.iter().zip(want).position(|(a, b)| a != b).unwrap_or(0);
+            fail!("C11/buffered-bytes-corrupted", "front_buf differs from the peer's stream at buffered offset {at} (stream offset {}) {}", ppos as usize + at, self.state());
+        }
+
+        // write side
+        let pending = self.chan.back_buf.available_data();
+        let flushed = self.peer_in.len() + inq(self.peer.as_raw_fd());
+        if self.out_expected.len() < pending || self.out_expected.len() - pending != flushed {
+            fail!(
+                "C11/write-byte-accounting",
+                "accepted frames total {} bytes, back_buf holds {pending}, but {flushed} bytes reached the socket {}",
+                self.out_expected.len(),
+                self.state()
+            );
+        }
+        if self.chan.back_buf.data() != &self.out_expected[flushed..] {
+            fail!("C11/written-bytes-corrupted", "back_buf content differs from the unflushed tail of the accepted frames {}", self.state());
+        }
+        Ok(())
+    }
+
+    fn peer_write(&mut self, k: usize) -> usize {
+        let end = self.stream.len().min(self.sent.saturating_add(k));
+        if end == self.sent {
+            return 0;
+        }
+        let n = match self.peer.write(&self.stream[self.sent..end]) {
+            Ok(n) => n,
+            Err(e) if e.kind() == std::io::ErrorKind::WouldBlock => 0,
+            Err(e) => panic!("C11 harness: peer write failed: {e}"),
+        };
+        if n < end - self.sent {
+            self.seen.peer_write_wouldblock = true;
+        }
+        if n > 0 {
+            let (a, b) = (self.sent, self.sent + n);
+            for f in self.frames.iter_mut() {
+                if f.start < b && f.start + f.len > a {
+                    f.writes += 1;
+                }
+            }
+            self.sent = b;
+        }
+        n
+    }
+
+    fn peer_read(&mut self, k: usize) -> Result<usize, Failure> {
+        let mut total = 0;
+        let mut buf = vec![0u8; k.min(65_536)];
+        while total < k {
+            let want = (k - total).min(buf.len());
+            match self.peer.read(&mut buf[..want]) {
+                Ok(0) => panic!("C11 harness: channel side closed"),
+                Ok(n) => {
+                    self.peer_in.extend_from_slice(&buf[..n]);
+                    total += n;
+                }
+                Err(e) if e.kind() == std::io::ErrorKind::WouldBlock => break,
+                Err(e) => panic!("C11 harness: peer read failed: {e}"),
+            }
+        }
+        if self.peer_in.len() > self.out_expected.len() || self.peer_in[..] != self.out_expected[..self.peer_in.len()] {
+            let at = self.peer_in.iter().zip(&self.out_expected).position(|(a, b)| a != b).unwrap_or(self.out_expected.len());
+            fail!("C11/written-bytes-corrupted", "the peer received bytes that differ from the accepted frames at offset {at} (received {} bytes, accepted {}) {}", self.peer_in.len(), self.out_expected.len(), self.state());
+        }
+        Ok(total)
+    }
+
+    fn do_readable(&mut self) -> Result<usize, Failure> {
+        let r = self.chan.readable();
+        if !self.chan.interest.is_readable() {
+            self.seen.read_interest_dropped = true;
+        }
+        match r {
+            Ok(n) => Ok(n),
+            Err(ChannelError::Connection(None)) => Ok(0),
+            Err(e) => fail!("C11/unexpected-io-error", "readable() failed although the peer is alive: {e:?} {}", self.state()),
+        }
+    }
+
+    fn do_writable(&mut self) -> Result<usize, Failure> {
+        let r = self.chan.writable();
+        match r {
+            Ok(n) => {
+                if self.chan.back_buf.available_data() > 0 {
+                    self.seen.chan_write_wouldblock = true;
+                }
+                Ok(n)
+            }
+            Err(ChannelError::Connection(None)) => Ok(0),
+            Err(e) => fail!("C11/unexpected-io-error", "writable() failed although the peer is alive: {e:?} {}", self.state()),
+        }
+    }
+
+    /// would a blocking `read_message` return without further peer writes?
+    fn blocking_read_returns(&self) -> bool {
+        let reach = self.chan.front_buf.available_data() + inq(self.chan.fd());
+        match self.frames.get(self.fi) {
+            None => false,
+            Some(f) => match f.kind {
+                Kind::Short | Kind::OverMax => reach >= PREFIX,
+                Kind::Valid | Kind::Undecodable => reach >= f.len,
+            },
+        }
+    }
+
+    /// one `read_message` call against the model; Ok(true) if a message was delivered
+    fn read_one(&mut self) -> Result<bool, Failure> {
+        let fd = self.chan.fd();
+        let avail_b = self.chan.front_buf.available_data();
+        let inq_b = inq(fd);
+        // bytes the call can look at: the buffer, plus the socket in blocking mode
+        let reach = if self.blocking { avail_b + inq_b } else { avail_b };
+        let r = if self.blocking {
+            // same code path as read_message(); the timeout only fires if the channel hangs
+            self.chan.read_message_blocking_timeout(Some(Duration::from_secs(10)))
+        } else {
+            self.chan.read_message()
+        };
+        self.seen.reads += 1;
+        let consumed = (avail_b + inq_b) as i64 - (self.chan.front_buf.available_data() + inq(fd)) as i64;
+        if let Err(e) = &r {
+            self.last_read_err = err_name(e);
+            self.seen.buffer_full_error |= matches!(e, ChannelError::BufferFull { .. });
+            if matches!(e, ChannelError::TimeoutReached(_)) {
+                fail!("C11/blocking-read-hangs", "blocking read_message did not return although {} is completely available {}", self.describe(self.fi), self.state());
+            }
+        }
+        let fi = self.fi;
+        let what = self.describe(fi);
+        // (message expected, bytes that must be consumed, or for undecodable: 0 or len)
+        let (kind, len) = match self.frames.get(fi) {
+            None => (None, 0),
+            Some(f) => match f.kind {
+                Kind::Short if reach >= PREFIX => (Some(Kind::Short), PREFIX),
+                Kind::OverMax if reach >= PREFIX => (Some(Kind::OverMax), 0),
+                Kind::Valid if reach >= f.len => (Some(Kind::Valid), f.len),
+                Kind::Undecodable if reach >= f.len => (Some(Kind::Undecodable), f.len),
+                _ => (None, 0),
+            },
+        };
+        match (kind, r) {
+            (Some(Kind::Valid), Ok(m)) => {
+                let (want, canon) = self.frames[fi].expected.as_ref().expect("valid frame has a message");
+                if &m != want {
+                    fail!("C11/message-corrupted", "{what} was delivered as {} instead of {}", engine::truncate(&format!("{m:?}"), 300), engine::truncate(&format!("{want:?}"), 300));
+                }
+                if &m.encode_to_vec() != canon {
+                    fail!("C11/message-corrupted", "{what}: the delivered message does not re-encode to the canonical payload");
+                }
+                if consumed != len as i64 {
+                    fail!("C11/misframed", "{what} was delivered but {consumed} bytes were consumed instead of {len} {}", self.state());
+                }
+                self.seen.big_delivered |= len * 2 > self.max;
+                self.seen.empty_delivered |= len == PREFIX;
+                self.fi += 1;
+                self.delivered += 1;
+                Ok(true)
+            }
+            (Some(Kind::Valid), Err(e)) => {
+                let sig = if matches!(e, ChannelError::BufferFull { .. }) && self.full_uncompacted() {
+                    SIG_NOT_COMPACTED.to_string()
+                } else {
+                    format!("C11/valid-frame-not-delivered:{}", err_name(&e))
+                };
+                fail!(
+                    sig,
+                    "{what} is completely available ({reach} bytes reachable) but read_message returned {e:?} {}",
+                    self.state()
+                );
+            }
+            (_, Ok(m)) => {
+                fail!("C11/phantom-message", "read_message returned {} although the next thing in the stream is {what} with {reach} bytes reachable {}", engine::truncate(&format!("{m:?}"), 300), self.state());
+            }
+            (Some(Kind::Undecodable), Err(_)) => {
+                self.seen.undecodable_reported += 1;
+                if consumed == len as i64 {
+                    self.seen.undecodable_skipped_by_channel += 1;
+                    self.fi += 1;
+                } else if consumed == 0 {
+                    self.frames[fi].refused += 1;
+                    // the frame is still at the front of the buffer; is a valid frame complete behind it?
+                    if self.frames[fi].refused >= 2 {
+                        if let Some(next) = self.frames.get(fi + 1) {
+                            if next.kind == Kind::Valid && reach >= len + next.len {
+                                fail!(
+                                    SIG_WEDGE,
+                                    "{what} was reported as an error {} times and is still at the front of the buffer; the valid {} is completely available behind it and is never delivered (last error {}) {}",
+                                    self.frames[fi].refused,
+                                    self.describe(fi + 1),
+                                    self.last_read_err,
+                                    self.state()
+                                );
+                            }
+                        }
+                    }
+                } else {
+                    fail!("C11/misframed-on-error", "{what}: the error consumed {consumed} bytes, neither nothing nor the frame {}", self.state());
+                }
+                Ok(false)
+            }
+            (k, Err(_)) => {
+                if consumed != len as i64 {
+                    fail!("C11/misframed-on-error", "{what} with {reach} bytes reachable: the error consumed {consumed} bytes instead of {len} {}", self.state());
+                }
+                match k {
+                    Some(Kind::Short) => {
+                        self.seen.short_reported += 1;
+                        self.fi += 1;
+                    }
+                    Some(Kind::OverMax) => self.seen.overmax_reported += 1,
+                    _ => {}
+                }
+                Ok(false)
+            }
+        }
+    }
+
+    /// lib/src/server.rs read_channel_messages_and_notify, minus the dispatch of the requests
+    fn server_loop(&mut self) -> Result<(), Failure> {
+        if !self.chan.readiness().is_readable() {
+            return Ok(());
+        }
+        self.do_readable()?;
+        let mut spins = 0u32;
+        loop {
+            if self.read_one()? {
+                continue;
+            }
+            if (self.chan.interest & self.chan.readiness).is_readable() {
+                self.do_readable()?;
+                spins += 1;
+                if spins > 200_000 {
+                    fail!("C11/read-loop-spins", "the worker's read loop does not terminate {}", self.state());
+                }
+                continue;
+            }
+            return Ok(());
+        }
+    }
+
+    /// bin/src/command/sessions.rs extract_messages (the real one) against the batch model
+    fn extract(&mut self) -> Result<(), Failure> {
+        let fd = self.chan.fd();
+        let before = self.chan.front_buf.available_data() + inq(fd);
+        let msgs = sozu::command::sessions::extract_messages(&mut self.chan);
+        let after = self.chan.front_buf.available_data() + inq(fd);
+        let mut left = before as i64 - after as i64;
+        let mut want: Vec<&WorkerResponse> = vec![];
+        let mut i = self.fi;
+        while left > 0 {
+            let Some(f) = self.frames.get(i) else { break };
+            if f.kind == Kind::OverMax || (f.len as i64) > left {
+                break;
+            }
+            if let Some((m, _)) = &f.expected {
+                want.push(m);
+            }
+            left -= f.len as i64;
+            i += 1;
+        }
+        if left != 0 {
+            fail!("C11/misframed", "extract_messages consumed {} bytes from {}: not a whole number of frames {}", before as i64 - after as i64, self.describe(self.fi), self.state());
+        }
+        if msgs.len() != want.len() || msgs.iter().zip(&want).any(|(a, b)| a != *b) {
+            fail!(
+                "C11/message-corrupted",
+                "extract_messages consumed frames #{}..#{i} and returned {} messages where the peer framed {}: got {} want {}",
+                self.fi,
+                msgs.len(),
+                want.len(),
+                engine::truncate(&format!("{msgs:?}"), 300),
+                engine::truncate(&format!("{want:?}"), 300)
+            );
+        }
+        self.delivered += msgs.len() as u64;
+        self.fi = i;
+        self.seen.extract_used = true;
+        // extract_messages stops at the first error: a complete undecodable frame at the front of
+        // the buffer now is one that read_message just reported and did not drop
+        let avail = self.chan.front_buf.available_data();
+        if let Some(f) = self.frames.get_mut(i) {
+            if f.kind == Kind::Undecodable && avail >= f.len {
+                f.refused += 1;
+                self.seen.undecodable_reported += 1;
+                self.last_read_err = "InvalidProtobufMessage";
+            }
+        }
+        Ok(())
+    }
+
+    /// the loop of extract_messages, mirrored on top of `read_one`
+    fn extract_mirror(&mut self) -> Result<(), Failure> {
+        for _ in 0..200_000u32 {
+            self.do_readable()?;
+            let cap = self.chan.front_buf.capacity();
+            if self.read_one()? {
+                continue;
+            }
+            if self.chan.front_buf.capacity() == cap {
+                return Ok(());
+            }
+        }
+        fail!("C11/read-loop-spins", "the extract_messages loop does not terminate {}", self.state());
+    }
+
+    /// one readable event as the owner of the channel handles it
+    fn owner_read(&mut self, events: Ready) -> Result<(), Failure> {
+        self.chan.handle_events(events);
+        match self.owner {
+            1 => {
+                self.seen.server_loop_used = true;
+                self.server_loop()
+            }
+            _ => {
+                // WorkerSession::ready / ClientSession::ready
+                self.do_writable()?;
+                self.extract()
+            }
+        }
+    }
+
+    fn write_message(&mut self, size: u32, near_max: bool, save_state: bool, seed: u8) -> Result<(), Failure> {
+        let total = if near_max { (self.max + size as usize).saturating_sub(3) } else { (size as usize).min(self.max + 32) };
+        let (id_len, path_len) = size_request(total.saturating_sub(PREFIX), save_state, seed);
+        let id = text(seed, 0, id_len);
+        let path = path_len.map(|p| text(seed, 500, p));
+        let msg = WorkerRequest {
+            id: id.clone(),
+            content: Request {
+                request_type: Some(match &path {
+                    Some(p) => RequestType::SaveState(p.clone()),
+                    None => RequestType::Status(Status {}),
+                }),
+            },
+        };
+        let frame = framed(&enc_request(&id, path.as_deref()));
+        let pending = self.chan.back_buf.available_data();
+        if self.blocking && frame.len() <= self.max {
+            // a blocking write of an accepted frame goes straight to the socket: the peer must have room
+            self.peer_read(usize::MAX)?;
+        }
+        match self.chan.write_message(&msg) {
+            Ok(()) => {
+                if frame.len() > self.max {
+                    fail!("C11/oversized-write-accepted", "a frame of {} bytes was accepted, max_buffer_size {} {}", frame.len(), self.max, self.state());
+                }
+                self.out_expected.extend_from_slice(&frame);
+                self.out_msgs.push((id, path));
+            }
+            Err(ChannelError::MessageTooLarge { .. }) => {
+                self.seen.write_refused = true;
+                if pending == 0 && frame.len() <= self.max {
+                    fail!("C11/write-refused-within-max", "a frame of {} bytes was refused on an empty back buffer, max_buffer_size {} {}", frame.len(), self.max, self.state());
+                }
+            }
+            Err(e) => fail!("C11/unexpected-io-error", "write_message failed: {e:?} {}", self.state()),
+        }
+        if self.blocking {
+            self.peer_read(usize::MAX)?;
+        }
+        Ok(())
+    }
+
+    fn step(&mut self, op: &Op) -> Result<(), Failure> {
+        match *op {
+            Op::PeerWrite(k) => {
+                self.peer_write(k as usize);
+            }
+            Op::PeerRead(k) => {
+                self.peer_read(k as usize)?;
+            }
+            Op::ChanWriteMessage { size, near_max, save_state, seed } => self.write_message(size, near_max, save_state, seed)?,
+            Op::ChanReadMessage if self.owner == 0 => {
+                if !self.blocking || self.blocking_read_returns() {
+                    self.read_one()?;
+                }
+            }
+            _ if self.blocking => {}
+            Op::ChanWritable => {
+                self.chan.handle_events(Ready::WRITABLE);
+                self.do_writable()?;
+            }
+            _ if self.owner != 0 => self.owner_read(Ready::READABLE)?,
+            Op::ChanReadable => {
+                self.chan.handle_events(Ready::READABLE);
+                self.do_readable()?;
+            }
+            Op::ExtractMessages => {
+                self.chan.handle_events(Ready::READABLE);
+                self.extract()?;
+            }
+            Op::ServerLoop => {
+                self.chan.handle_events(Ready::READABLE);
+                self.seen.server_loop_used = true;
+                self.server_loop()?;
+            }
+            // owner 0 is handled by the guarded arm, the other owners by `owner_read`
+            Op::ChanReadMessage => {}
+        }
+        self.observe()
+    }
+
+    /// Let both sides run until nothing moves any more, the way the owners' event loops would.
+    fn drain(&mut self) -> Result<(), Failure> {
+        let mut idle = 0;
+        for _round in 0..200_000u32 {
+            let mark = (self.sent, self.fi, self.peer_in.len(), self.chan.front_buf.capacity(), self.chan.front_buf.available_data(), self.chan.back_buf.available_data());
+            // blocking mode: the channel only reads when a whole frame is reachable, so the peer must not
+            // exhaust the socket buffer with the per-write overhead of small pieces
+            let k = if self.drain_chunk == 0 || self.blocking { usize::MAX } else { self.drain_chunk.max((self.stream.len() - self.sent) / 32 + 1) };
+            self.peer_write(k);
+            if self.blocking {
+                while self.blocking_read_returns() {
+                    let fi = self.fi;
+                    self.read_one()?;
+                    if self.fi == fi {
+                        break;
+                    }
+                }
+            } else if self.owner != 0 {
+                self.owner_read(Ready::READABLE | Ready::WRITABLE)?;
+                self.do_writable()?;
+            } else {
+                self.chan.handle_events(Ready::READABLE | Ready::WRITABLE);
+                self.server_loop()?;
+                self.extract_mirror()?;
+                self.do_writable()?;
+            }
+            self.peer_read(usize::MAX)?;
+            self.observe()?;
+            let now = (self.sent, self.fi, self.peer_in.len(), self.chan.front_buf.capacity(), self.chan.front_buf.available_data(), self.chan.back_buf.available_data());
+            if now == mark {
+                idle += 1;
+                // two more rounds after the last movement: every pending error is reported at least twice
+                if idle >= 3 {
+                    return Ok(());
+                }
+            } else {
+                idle = 0;
+            }
+        }
+        fail!("C11/drain-does-not-settle", "both sides still move after 200000 rounds {}", self.state());
+    }
+
+    fn final_checks(&mut self) -> Result<(), Failure> {
+        // read side: everything before an over-max prefix must have been handed out
+        if let Some(f) = self.frames.get(self.fi) {
+            let valid_behind = self.frames[self.fi + 1..].iter().take_while(|g| g.kind != Kind::OverMax).filter(|g| g.kind == Kind::Valid).count();
+            match f.kind {
+                Kind::OverMax => {}
+                Kind::Undecodable if f.refused > 0 => {
+                    if valid_behind > 0 {
+                        fail!(
+                            SIG_WEDGE,
+                            "{} was reported as an error {} times and never dropped; {valid_behind} valid frame(s) the peer sent behind it were never delivered (last error {}) {}",
+                            self.describe(self.fi),
+                            f.refused,
+                            self.last_read_err,
+                            self.state()
+                        );
+                    }
+                }
+                // blocking mode reads only what the model says is complete; the peer could not send the rest
+                _ if self.blocking && !self.blocking_read_returns() => self.seen.blocking_peer_stuck = true,
+                _ => {
+                    let avail = self.chan.front_buf.available_data();
+                    let sig = if avail < f.len && self.full_uncompacted() {
+                        SIG_NOT_COMPACTED
+                    } else if !self.chan.interest.is_readable() {
+                        // the owner's loop is gated on `readiness()` and nothing re-arms READABLE
+                        SIG_INTEREST_LOST
+                    } else {
+                        "C11/stalled"
+                    };
+                    fail!(
+                        sig,
+                        "nothing moves any more but {} was never handed out ({avail} of its bytes are buffered, {valid_behind} more valid frame(s) behind it) {}",
+                        self.describe(self.fi),
+                        self.state()
+                    );
+                }
+            }
+        }
+        // write side
+        if self.chan.back_buf.available_data() > 0 {
+            fail!("C11/write-stalled", "nothing moves any more but back_buf still holds {} bytes {}", self.chan.back_buf.available_data(), self.state());
+        }
+        if self.peer_in != self.out_expected {
+            fail!("C11/written-bytes-corrupted", "the peer received {} bytes, the accepted frames total {}", self.peer_in.len(), self.out_expected.len());
+        }
+        // decode what the peer received by hand
+        let mut p = 0;
+        let mut got = vec![];
+        while p < self.peer_in.len() {
+            let Some(prefix) = self.peer_in.get(p..p + PREFIX) else {
+                fail!("C11/written-frame-malformed", "truncated prefix at offset {p} of the peer's input");
+            };
+            let total = u64::from_le_bytes(prefix.try_into().expect("8 bytes")) as usize;
+            let Some(payload) = (total >= PREFIX).then(|| self.peer_in.get(p + PREFIX..p + total)).flatten() else {
+                fail!("C11/written-frame-malformed", "frame at offset {p} declares {total} bytes, {} are there", self.peer_in.len() - p);
+            };
+            let Some(m) = dec_request(payload) else {
+                fail!("C11/written-frame-malformed", "payload of the frame at offset {p} is not the WorkerRequest that was written: {:?}", &payload[..payload.len().min(64)]);
+            };
+            got.push(m);
+            p += total;
+        }
+        if got != self.out_msgs {
+            fail!("C11/written-messages-differ", "the peer decoded {} messages, {} were accepted by write_message", got.len(), self.out_msgs.len());
+        }
+        Ok(())
+    }
+}
+
+pub fn check(case: &Case) -> CheckResult {
+    let mut rep = CaseReport::default();
+    if case.buffer_size == 0 || case.buffer_size > case.max_buffer_size {
+        // outside the generated domain (hand-edited replay)
+        return Ok(rep);
+    }
+    let mut w = World::new(case);
+    w.observe()?;
+    for op in &case.ops {
+        w.step(op)?;
+    }
+    w.drain()?;
+    w.final_checks()?;
+
+    let s = &w.seen;
+    let split3 = w.frames.iter().any(|f| f.writes >= 3);
+    let messages = w.delivered + w.out_msgs.len() as u64;
+    let grew = s.front_grew || s.back_grew;
+    rep.nontrivial = messages >= 3 && split3 && (s.chan_write_wouldblock || grew);
+    rep.inner_evaluations = s.reads + case.ops.len() as u64;
+    let skipped = case.no_undecodable && case.frames.iter().any(|f| matches!(f, FrameSpec::Undecodable { .. }));
+    rep.excluded_known = skipped as u64;
+    rep.class_if(messages >= 3, "messages>=3");
+    rep.class_if(w.delivered >= 1, "delivered_to_channel");
+    rep.class_if(!w.out_msgs.is_empty(), "delivered_to_peer");
+    rep.class_if(split3, "frame_split_over_3_writes");
+    rep.class_if(s.chan_write_wouldblock, "channel_write_wouldblock");
+    rep.class_if(s.peer_write_wouldblock, "peer_write_wouldblock");
+    rep.class_if(s.front_grew, "front_grew");
+    rep.class_if(s.front_shrank, "front_shrank");
+    rep.class_if(s.back_grew, "back_grew");
+    rep.class_if(s.back_shrank, "back_shrank");
+    rep.class_if(s.read_interest_dropped, "front_full_at_max");
+    rep.class_if(s.buffer_full_error, "buffer_full_error");
+    rep.class_if(s.write_refused, "write_refused_too_large");
+    rep.class_if(s.short_reported > 0, "malformed:short_prefix");
+    rep.class_if(s.overmax_reported > 0, "malformed:over_max");
+    rep.class_if(s.undecodable_reported > 0, "malformed:undecodable");
+    rep.class_if(s.undecodable_skipped_by_channel > 0, "undecodable_dropped_by_channel");
+    rep.class_if(s.short_reported > 0 && w.delivered > 0, "valid_and_short_prefix_mixed");
+    rep.class_if(s.big_delivered, "frame_over_half_max_delivered");
+    rep.class_if(s.empty_delivered, "empty_payload_delivered");
+    rep.class_if(s.extract_used, "op:extract_messages");
+    rep.class_if(s.server_loop_used, "op:server_loop");
+    rep.class_if(skipped, "undecodable_left_out");
+    rep.class_if(s.blocking_peer_stuck, "blocking_peer_could_not_send_all");
+    rep.class_if(case.sndbuf > 0 && case.sndbuf < 8192, "small_sndbuf");
+    rep.class_if(case.buffer_size == case.max_buffer_size, "no_growth_room");
+    Ok(rep)
+}
+
+pub fn run(args: &Args) -> i32 {
+    let mut ev = Evidence::new(args, "exploration");
+    ev.rule(
+        "nonblocking",
+        "Case = (buffer_size 16..8192, max_buffer_size = buffer_size x 1..512 (+0..17) clamped to 32..65536; SO_SNDBUF default / kernel minimum / small on both sockets; owner of the read side: arbitrary caller / worker / main process; peer stream = 0..10 frames: valid WorkerResponse frames (payload 0..40 mostly, up to max, near-max = max-0..16), 8-byte prefixes declaring < 8, prefixes declaring max+1 .. u64::MAX, correctly prefixed payloads that are not a WorkerResponse (6 flavours; left out in 70% of the cases, counted in excluded_known); 0..80 ops: PeerWrite(k), readable(), read_message(), write_message(WorkerRequest Status/SaveState, frame size 0..max+32 or max-3..max+3), writable(), PeerRead(k), the real sessions::extract_messages, the mirrored worker read loop of lib/src/server.rs; with owner worker / main every read op is that owner's whole loop) followed by a drain phase: the peer writes the rest (in pieces of drain_chunk), the owner's loop(s), writable() and the peer's reads run until nothing moves for 3 rounds. Frames are encoded and decoded by the hand-written protobuf code of the check, never by the channel. Oracle after every step: front_buf.data() == the peer's stream from the model's parse position (byte accounting through FIONREAD on the socket), back_buf.data() == unflushed tail of the accepted frames, both capacities <= max_buffer_size. Per read_message: complete valid frame -> exactly that message (struct equality and canonical re-encoding) and exactly its bytes consumed; incomplete -> Err, nothing consumed; prefix < 8 -> Err, 8 bytes consumed; prefix > max -> Err on every call, nothing consumed; undecodable -> Err, and the frame dropped at the latest on the following call if a valid frame is complete behind it; an Ok that is not the next framed message fails. write_message: refused iff too large (must be accepted on an empty back buffer when the frame is <= max, never accepted above max). End: every frame before the first over-max prefix was handed out (otherwise stalled / wedged), every accepted write was received by the peer byte-identical and decodes by hand to the same (id, content). Non-trivial: >= 3 messages delivered (both directions together), >= 1 frame carried by >= 3 peer writes, and a would-block in writable() or a buffer growth; distinct by case hash.",
+    );
+    ev.rule(
+        "blocking",
+        "same stream and oracle with the channel in blocking mode and default socket buffers; ops PeerWrite(k), read_message() (only when the model says it returns: a complete frame or a malformed prefix is reachable in buffer + socket; a 10 s timeout turns a hang into a failure), write_message() followed by the peer reading everything; drain = peer writes everything, reads while the model says a read returns.",
+    );
+    ev.assume("the peer never closes its socket during a case (HUP handling is not part of this check)");
+    ev.assume("buffer_size <= max_buffer_size, both > 0 (the defaults are 1 MB / 2 MB; the config loader does not validate the pair)");
+    ev.assume("the frame of a declared length below 8 is its 8 prefix bytes");
+    ev.assume("handle_events(READABLE/WRITABLE) may be delivered spuriously (mio documents spurious readiness events)");
+    ev.assume("would-block points are chosen by the kernel (socket buffer accounting), the oracle does not depend on them");
+    ev.floor("nonblocking", "messages>=3", 0.4);
+    ev.floor("nonblocking", "frame_split_over_3_writes", 0.2);
+    ev.floor("nonblocking", "front_grew", 0.2);
+    ev.floor("nonblocking", "back_grew", 0.05);
+    ev.floor("nonblocking", "channel_write_wouldblock", 0.02);
+    ev.floor("nonblocking", "malformed:short_prefix", 0.08);
+    ev.floor("nonblocking", "malformed:over_max", 0.05);
+    ev.floor("nonblocking", "valid_and_short_prefix_mixed", 0.06);
+    ev.floor("nonblocking", "frame_over_half_max_delivered", 0.1);
+    ev.floor("nonblocking", "front_shrank", 0.05);
+    ev.floor("blocking", "delivered_to_channel", 0.5);
+    engine::run_pbt(&mut ev, args, "nonblocking", args.cases(300_000, 6_000_000), strategy, check);
+    engine::run_pbt(&mut ev, args, "blocking", args.cases(60_000, 1_000_000), strategy_blocking, check);
+    ev.finish()
 }
